@@ -1,1 +1,1046 @@
-(* placeholder: proofs are being written *)
+(* The algebraic core of BRAIN over a MathComp realFieldType: Newton-Girard in both directions, read through the
+   logarithmic derivative ('X * A^`() + A * a vanishes up to degree N), without roots. *)
+From mathcomp Require Import all_ssreflect all_algebra.
+From mathcomp Require Import ring zify.
+(* ssrZ is re-exported on purpose: the statement of C03_brain_defined in Properties/C03.v writes `BinInt.Z.leb 0 _` under
+   ring_scope, and that `0 : Z` only elaborates when ssrZ's canonical ring structure on Z is imported *)
+From mathcomp Require Export ssrZ.
+From CE Require Import Num TableTypes TableModel Brain BrainSpec NumMC BrainAlgSpec.
+Set Implicit Arguments. Unset Strict Implicit. Unset Printing Implicit Defensive.
+Import GRing.Theory Num.Theory.
+Local Open Scope ring_scope.
+
+(* ---------------------------------------------------------------------------------------------- *)
+(* stdlib list functions vs. ssreflect ones                                                         *)
+(* ---------------------------------------------------------------------------------------------- *)
+Section StdConv.
+Variables (T U : Type).
+Lemma lengthE (l : seq T) : List.length l = size l. Proof. by elim: l => //= _ l ->. Qed.
+Lemma nthE (l : seq T) i d : List.nth i l d = nth d l i.
+Proof. by elim: l i => [|x l IH] [|i] //=. Qed.
+Lemma appE (l1 l2 : seq T) : List.app l1 l2 = l1 ++ l2. Proof. by elim: l1 => //= x l ->. Qed.
+Lemma mapE (f : T -> U) l : List.map f l = map f l. Proof. by elim: l => //= x l ->. Qed.
+Lemma repeatE (x : T) n : List.repeat x n = nseq n x. Proof. by elim: n => //= n ->. Qed.
+Lemma seqE a n : List.seq a n = iota a n. Proof. by elim: n a => [|n IH] a //=; rewrite IH. Qed.
+Lemma fold_leftE (f : U -> T -> U) l z : List.fold_left f l z = foldl f z l.
+Proof. by elim: l z => [|x l IH] z //=. Qed.
+Lemma combineE (l1 : seq T) (l2 : seq U) : List.combine l1 l2 = zip l1 l2.
+Proof. by elim: l1 l2 => [|x l1 IH] [|y l2] //=; rewrite IH. Qed.
+Lemma forallbE (p : T -> bool) l : List.forallb p l = all p l.
+Proof. by elim: l => //= x l ->. Qed.
+End StdConv.
+
+Lemma natsubE a b : Nat.sub a b = (a - b)%N. Proof. by []. Qed.
+Lemma nataddE a b : Nat.add a b = (a + b)%N. Proof. by []. Qed.
+Lemma ltbE a b : Nat.ltb a b = (a < b)%N.
+Proof. by apply/idP/idP => [/PeanoNat.Nat.ltb_lt/ltP|/ltP/PeanoNat.Nat.ltb_lt]. Qed.
+Lemma nateqbE a b : Nat.eqb a b = (a == b).
+Proof. by apply/idP/idP => [/PeanoNat.Nat.eqb_eq->|/eqP->] //; apply/PeanoNat.Nat.eqb_eq. Qed.
+Lemma compare_ltn a b : (a < b)%N -> Nat.compare a b = Lt.
+Proof. by move/ltP/PeanoNat.Nat.compare_lt_iff. Qed.
+
+Definition stdE := (lengthE, nthE, appE, mapE, repeatE, seqE, fold_leftE, combineE, forallbE, natsubE, nataddE, ltbE).
+
+(* strings as an eqType (for uniq) *)
+Definition string_eqMixin := EqMixin String.eqb_spec.
+#[local] Canonical string_eqType := EqType String.string string_eqMixin.
+
+Lemma nodup_size_le (l : seq String.string) : (size (List.nodup String.string_dec l) <= size l)%N.
+Proof. by elim: l => //= x l IH; case: List.in_dec => _ //=; apply: leqW. Qed.
+
+Lemma In_mem (x : String.string) l : x \in l -> List.In x l.
+Proof.
+elim: l => //= y l IH; rewrite inE => /orP[/eqP->|/IH]; first by left.
+by right.
+Qed.
+
+Lemma nodup_uniq (l : seq String.string) :
+  size (List.nodup String.string_dec l) = size l -> uniq l.
+Proof.
+elim: l => //= x l IH; case: List.in_dec => [_|nin] /=.
+  by move=> E; move: (nodup_size_le l); rewrite E ltnn.
+by case=> /IH->; rewrite andbT; apply/negP => /In_mem.
+Qed.
+
+Lemma find_uniq (T : Type) (key : T -> String.string) (d : T) (l : seq T) i :
+  uniq (map key l) -> (i < size l)%N ->
+  List.find (fun y => String.eqb (key y) (key (nth d l i))) l = Some (nth d l i).
+Proof.
+elim: l i => //= x l IH [|i] /andP[nin ul]; first by rewrite String.eqb_refl.
+rewrite ltnS => il /=.
+have -> : String.eqb (key x) (key (nth d l i)) = false.
+  apply/negbTE/negP => /(@eqP string_eqType) E; move: nin; rewrite E.
+  by rewrite -(nth_map d (key d)) // mem_nth // size_map.
+exact: IH.
+Qed.
+
+(* ---------------------------------------------------------------------------------------------- *)
+(* the logarithmic-derivative relation                                                              *)
+(* ---------------------------------------------------------------------------------------------- *)
+Section LD.
+Variable F : numFieldType.
+Implicit Types (A B a b : {poly F}) (N : nat).
+
+Definition z_upto N (p : {poly F}) := forall k, (k <= N)%N -> p`_k = 0.
+
+Lemma z_upto_mulr N p q : z_upto N p -> z_upto N (p * q).
+Proof.
+move=> Hp k Hk; rewrite coefM big1 // => j _.
+by rewrite Hp ?mul0r // (leq_trans _ Hk) // -ltnS.
+Qed.
+Lemma z_upto_mull N p q : z_upto N p -> z_upto N (q * p).
+Proof. by move=> Hp; rewrite mulrC; apply: z_upto_mulr. Qed.
+Lemma z_upto_add N p q : z_upto N p -> z_upto N q -> z_upto N (p + q).
+Proof. by move=> Hp Hq k Hk; rewrite coefD Hp // Hq // addr0. Qed.
+
+Definition ld N A a := z_upto N ('X * A^`() + A * a).
+
+Lemma ld_mul N A B a b : ld N A a -> ld N B b -> ld N (A * B) (a + b).
+Proof.
+move=> HA HB; rewrite /ld.
+have -> : 'X * (A * B)^`() + A * B * (a + b) =
+          ('X * A^`() + A * a) * B + A * ('X * B^`() + B * b).
+  by rewrite derivM !mulrDr !mulrDl !mulrA; ring.
+by apply: z_upto_add; [apply: z_upto_mulr | apply: z_upto_mull].
+Qed.
+
+Lemma ld_one N : ld N 1 0.
+Proof. by move=> k _; rewrite derivC mulr0 mulr0 addr0 coef0. Qed.
+
+Lemma ld_exp N A a n : ld N A a -> ld N (A ^+ n) (a *+ n).
+Proof.
+move=> HA; elim: n => [|n IH]; first by rewrite expr0 mulr0n; apply: ld_one.
+by rewrite exprS mulrS; apply: ld_mul.
+Qed.
+
+Lemma ld_bigprod N (I : Type) (r : seq I) (A a : I -> {poly F}) :
+  (forall i, ld N (A i) (a i)) -> ld N (\prod_(i <- r) A i) (\sum_(i <- r) a i).
+Proof.
+move=> H; elim: r => [|i r IH]; first by rewrite !big_nil; apply: ld_one.
+by rewrite !big_cons; apply: ld_mul.
+Qed.
+
+(* coefficient form of ld *)
+Lemma ld_coefE A a k : (0 < k)%N ->
+  ('X * A^`() + A * a)`_k = A`_k *+ k + \sum_(j < k.+1) A`_j * a`_(k - j).
+Proof.
+move=> k0; rewrite coefD coefXM (gtn_eqF k0) coef_deriv prednK // coefM.
+by [].
+Qed.
+
+Lemma ld_coef0 A a : ('X * A^`() + A * a)`_0 = A`_0 * a`_0.
+Proof. by rewrite coefD coefXM eqxx add0r coefM big_ord1 subn0. Qed.
+
+(* only the coefficients of a up to N matter *)
+Lemma ld_eqr N A a a' : (forall k, (k <= N)%N -> a`_k = a'`_k) -> ld N A a -> ld N A a'.
+Proof.
+move=> E H k kN; rewrite -[RHS](H k kN) !coefD; congr (_ + _); rewrite !coefM.
+by apply: eq_bigr => j _; rewrite E // (leq_trans (leq_subr _ _)).
+Qed.
+
+(* uniqueness *)
+Lemma ld_uniq N A B a : ld N A a -> ld N B a -> a`_0 = 0 -> A`_0 = B`_0 ->
+  forall k, (k <= N)%N -> A`_k = B`_k.
+Proof.
+move=> HA HB a0 AB0 k; elim/ltn_ind: k => -[//|k] IH kN.
+have HAk := HA _ kN; have HBk := HB _ kN.
+rewrite !ld_coefE // in HAk HBk.
+have E : \sum_(j < k.+2) A`_j * a`_(k.+1 - j) = \sum_(j < k.+2) B`_j * a`_(k.+1 - j).
+  rewrite [LHS]big_ord_recr [RHS]big_ord_recr /= subnn a0 !mulr0 !addr0.
+  apply: eq_bigr => j _; rewrite IH //.
+  by rewrite (leq_trans _ (ltnW kN)) // -ltnS.
+have H : A`_k.+1 *+ k.+1 = B`_k.+1 *+ k.+1.
+  by apply: (@addIr _ (\sum_(j < k.+2) B`_j * a`_(k.+1 - j))); rewrite -{1}E HAk HBk.
+by move/eqP: H; rewrite -subr_eq0 -mulrnBl mulrn_eq0 /= subr_eq0 => /eqP.
+Qed.
+End LD.
+
+(* ---------------------------------------------------------------------------------------------- *)
+Section Alg.
+Variable R : realFieldType.
+Notation NR := (NumR R).
+Implicit Types (esp ps : seq R).
+
+(* ---- integers ---- *)
+Lemma zR_of_nat k : zR R (BinInt.Z.of_nat k) = k%:R.
+Proof. by rewrite /zR; have -> : int_of_Z (BinInt.Z.of_nat k) = Posz k by lia. Qed.
+
+Lemma zR_to_nat z : BinInt.Z.le 0 z -> zR R z = (BinInt.Z.to_nat z)%:R.
+Proof. by move=> z0; rewrite -zR_of_nat Znat.Z2Nat.id. Qed.
+
+Lemma natr_neq0 k : (0 < k)%N -> (k%:R : R) != 0.
+Proof. by move=> k0; rewrite pnatr_eq0 -lt0n. Qed.
+
+(* ---- signs ---- *)
+Lemma neg1E : neg1 NR = -1. Proof. by []. Qed.
+Lemma addE (a b : R) : add NR a b = a + b. Proof. by []. Qed.
+Lemma mulE (a b : R) : mul NR a b = a * b. Proof. by []. Qed.
+Lemma divE (a b : R) : div NR a b = a / b. Proof. by []. Qed.
+Lemma of_ZE z : of_Z NR z = zR R z. Proof. by []. Qed.
+Lemma zeroE : zero NR = 0. Proof. by []. Qed.
+Lemma oneE : one NR = 1. Proof. by []. Qed.
+Definition numE := (neg1E, addE, mulE, divE, of_ZE, zeroE, oneE).
+
+Lemma sgn_even i : sgn NR (Nat.even i) = (-1) ^+ i.
+Proof.
+elim/ltn_ind: i => -[|[|i]] IH; rewrite ?expr0 ?expr1 //.
+by rewrite [Nat.even _]/= IH // !exprS mulrA mulrNN mul1r mul1r.
+Qed.
+
+Lemma sgn_odd i : sgn NR (Nat.odd i) = (-1) ^+ i.+1.
+Proof.
+rewrite exprS -sgn_even /Nat.odd; case: (Nat.even i) => /=; first by rewrite mulr1.
+by rewrite mulrNN mulr1.
+Qed.
+
+Lemma nthFE (l : seq R) i : nthF NR l i = l`_i.
+Proof. by rewrite /nthF nthE. Qed.
+
+Lemma signMM i (x : R) : (-1) ^+ i * ((-1) ^+ i * x) = x.
+Proof. by rewrite mulrA -expr2 sqrr_sign mul1r. Qed.
+
+(* ---- Newton-Girard, esp -> power sums ---- *)
+Definition psn_closed esp ps k : R :=
+  if k is 0 then 0 else
+  \sum_(1 <= j < k) (-1) ^+ j.+1 * esp`_j * ps`_(k - j) + (-1) ^+ k.+1 * esp`_k * k%:R.
+
+Lemma ps_nextE esp ps k : ps_next NR esp ps k = psn_closed esp ps k.
+Proof.
+case: k => // k; rewrite /ps_next /psn_closed !stdE subn1 [k.+1.-1]/=.
+set f := (f in foldl f).
+have fE t s a : f (t, s) a = (t + s * -1 * esp`_a * ps`_(k.+1 - a), s * -1).
+  by rewrite /f !nthFE.
+have H : forall m a (t : R),
+   foldl f (t, (-1) ^+ a) (iota a m)
+   = (t + \sum_(a <= j < a + m) (-1) ^+ j.+1 * esp`_j * ps`_(k.+1 - j), (-1) ^+ (a + m)).
+  elim=> [|m IH] a t.
+    by rewrite addn0 /= big_geq // addr0.
+  rewrite -[iota a m.+1]/(a :: iota a.+1 m) -[foldl f _ (_ :: _)]/(foldl f (f _ a) _) fE.
+  rewrite -exprSr IH addnS addSn.
+  rewrite [in RHS]big_ltn; last by rewrite ltnS leq_addr.
+  by rewrite addrA.
+have -> : (zero NR, neg1 NR) = (0, (-1) ^+ 1) :> R * R by rewrite expr1.
+rewrite H add0r add1n !numE nthFE -exprSr.
+by rewrite zR_of_nat.
+Qed.
+
+Definition PSinv esp ps := forall k, (k < size ps)%N -> ps`_k = psn_closed esp ps k.
+
+Lemma nth_pad (s : seq R) m j : (s ++ nseq m 0)`_j = s`_j.
+Proof.
+by rewrite nth_cat; case: ltnP => // le; rewrite nth_nseq if_same nth_default.
+Qed.
+
+Lemma psn_closed_pad esp m ps k : psn_closed (esp ++ nseq m 0) ps k = psn_closed esp ps k.
+Proof.
+case: k => // k; rewrite /psn_closed nth_pad; congr (_ + _).
+by apply: eq_bigr => j _; rewrite nth_pad.
+Qed.
+
+Lemma psn_closed_cat esp ps t k : (k <= size ps)%N -> psn_closed esp (ps ++ t) k = psn_closed esp ps k.
+Proof.
+case: k => // k kl; rewrite /psn_closed; congr (_ + _).
+apply: eq_big_nat => j /andP[j1 jk]; rewrite nth_cat.
+by have -> : (k.+1 - j < size ps)%N by lia.
+Qed.
+
+Lemma PSinv_pad esp m ps : PSinv esp ps -> PSinv (esp ++ nseq m 0) ps.
+Proof. by move=> H k kl; rewrite psn_closed_pad; apply: H. Qed.
+
+Lemma PSinv_nil esp : PSinv esp [::]. Proof. by []. Qed.
+
+Lemma extend_psP fuel esp ps : (size esp - size ps <= fuel)%N -> PSinv esp ps ->
+  size (extend_ps NR fuel esp ps) = maxn (size ps) (size esp) /\ PSinv esp (extend_ps NR fuel esp ps).
+Proof.
+elim: fuel ps => [|fuel IH] ps Hf Hps /=.
+  by split=> //; lia.
+rewrite !stdE; case: ltnP => Hlt; last by split=> //; lia.
+set x := ps_next _ _ _ _.
+have [] := IH (ps ++ [:: x]).
+- by rewrite size_cat /=; lia.
+- move=> k; rewrite size_cat /= addn1 ltnS leq_eqVlt => /orP[/eqP->|kl].
+    by rewrite nth_cat ltnn subnn /= psn_closed_cat // /x ps_nextE.
+  by rewrite nth_cat kl psn_closed_cat ?Hps // ltnW.
+by rewrite size_cat /= => -> H; split=> //; lia.
+Qed.
+
+Lemma update_psP esp ps : PSinv esp ps ->
+  size (update_ps NR esp ps) = maxn (size ps) (size esp) /\ PSinv esp (update_ps NR esp ps).
+Proof. by move=> H; apply: extend_psP => //; rewrite lengthE leq_subr. Qed.
+
+(* the power-sum recurrence is the logarithmic-derivative relation *)
+Definition newton_ok (A : {poly R}) ps := forall k, (k < size ps)%N -> ('X * A^`() + A * Poly ps)`_k = 0.
+
+Lemma PSinv_newton_ok (A : {poly R}) esp ps :
+  A`_0 = 1 -> (forall j, A`_j = (-1) ^+ j * esp`_j) -> PSinv esp ps -> newton_ok A ps.
+Proof.
+move=> A0 AE H [|k] kl.
+  by rewrite ld_coef0 coef_Poly (H 0%N kl) mulr0.
+rewrite ld_coefE // -(big_mkord xpredT (fun j => A`_j * (Poly ps)`_(k.+1 - j))).
+rewrite big_ltn // big_nat_recr //= subnn subn0 A0 mul1r !coef_Poly (H 0%N (leq_ltn_trans _ kl)) //.
+rewrite mulr0 addr0 (H _ kl) /psn_closed.
+rewrite [X in _ + X]addrAC -big_split /= big1_seq ?add0r.
+  by rewrite AE [in X in _ + X]exprS mulN1r !mulNr -mulr_natr subrr.
+move=> j; rewrite mem_index_iota => /andP[_ /andP[j1 jk]].
+by rewrite AE coef_Poly exprS mulN1r !mulNr addNr.
+Qed.
+
+(* ---- Newton-Girard, power sums -> esp ---- *)
+Definition espn_closed ps esp k : R :=
+  if k is 0 then 1 else (\sum_(1 <= j < k.+1) (-1) ^+ j.+1 * ps`_j * esp`_(k - j)) / k%:R.
+
+Lemma fsumE (l : seq R) : fsum NR l = \sum_(x <- l) x.
+Proof.
+rewrite /fsum fold_leftE.
+have H : forall z, foldl (add NR) z l = z + \sum_(x <- l) x.
+  elim: l => [|x l IH] z /=; first by rewrite big_nil addr0.
+  by rewrite IH big_cons addrA.
+by rewrite H /= add0r.
+Qed.
+
+Lemma esp_nextE mv ps esp k : BinInt.Z.le (BinInt.Z.of_nat k) mv ->
+  esp_next NR mv ps esp k = espn_closed ps esp k.
+Proof.
+case: k => // k Hk; rewrite /esp_next /espn_closed.
+have -> : BinInt.Z.ltb mv (BinInt.Z.of_nat k.+1) = false by lia.
+rewrite divE of_ZE zR_of_nat fsumE !stdE big_map; congr (_ / _).
+rewrite /index_iota subn1 succnK; apply: eq_bigr => j _.
+by rewrite !numE sgn_odd !nthFE stdE.
+Qed.
+
+Definition ESinv ps esp := forall k, (k < size esp)%N -> esp`_k = espn_closed ps esp k.
+
+Lemma espn_closed_cat ps esp t k : (k <= size esp)%N -> espn_closed ps (esp ++ t) k = espn_closed ps esp k.
+Proof.
+case: k => // k kl; rewrite /espn_closed; congr (_ / _).
+apply: eq_big_nat => j /andP[j1 jk]; rewrite nth_cat.
+by have -> : (k.+1 - j < size esp)%N by lia.
+Qed.
+
+Lemma extend_espP fuel mv ps esp : (size ps - size esp <= fuel)%N ->
+  BinInt.Z.le (BinInt.Z.of_nat (size ps)) (BinInt.Z.add mv 1) -> ESinv ps esp ->
+  size (extend_esp NR fuel mv ps esp) = maxn (size esp) (size ps) /\ ESinv ps (extend_esp NR fuel mv ps esp).
+Proof.
+move=> + Hmv; elim: fuel esp => [|fuel IH] esp Hf He /=.
+  by split=> //; lia.
+rewrite !stdE; case: ltnP => Hlt; last by split=> //; lia.
+set x := esp_next _ _ _ _ _.
+have [] := IH (esp ++ [:: x]).
+- by rewrite size_cat /=; lia.
+- move=> k; rewrite size_cat /= addn1 ltnS leq_eqVlt => /orP[/eqP->|kl].
+    by rewrite nth_cat ltnn subnn /= espn_closed_cat // /x esp_nextE //; lia.
+  by rewrite nth_cat kl espn_closed_cat ?He // ltnW.
+by rewrite size_cat /= => -> H; split=> //; lia.
+Qed.
+
+Lemma update_espP mv ps : BinInt.Z.le (BinInt.Z.of_nat (size ps)) (BinInt.Z.add mv 1) ->
+  size (update_esp NR mv ps [::]) = size ps /\ ESinv ps (update_esp NR mv ps [::]).
+Proof.
+move=> Hmv; have [] := @extend_espP (size ps) mv ps [::] _ Hmv; rewrite ?subn0 //.
+by rewrite max0n /update_esp lengthE.
+Qed.
+
+Lemma sign_cancel k j (x y : R) : (j <= k)%N ->
+  (-1) ^+ k * ((-1) ^+ j.+1 * x * y) + (-1) ^+ (k - j) * y * x = 0.
+Proof.
+move=> jk; rewrite -{1}(subnK jk) exprD exprS.
+set u := (-1) ^+ (k - j); set v := (-1) ^+ j.
+have vv : v * v = 1 by rewrite -expr2 sqrr_sign.
+have -> : u * v * (-1 * v * x * y) + u * y * x = u * x * y * (1 - v * v) by ring.
+by rewrite vv subrr mulr0.
+Qed.
+
+Definition Bpoly (E : seq R) : {poly R} := \poly_(k < size E) ((-1) ^+ k * E`_k).
+
+Lemma ESinv_ld ps E : ps`_0 = 0 -> ESinv ps E -> (size E <= size ps)%N ->
+  forall N, (N < size E)%N -> ld N (Bpoly E) (Poly ps).
+Proof.
+move=> ps0 HE sz N NE [|k] kN.
+  by rewrite ld_coef0 coef_Poly ps0 mulr0.
+have kE : (k.+1 < size E)%N by apply: leq_ltn_trans NE.
+rewrite ld_coefE // -(big_mkord xpredT (fun j => (Bpoly E)`_j * (Poly ps)`_(k.+1 - j))).
+rewrite big_nat_rev /= add0n big_ltn // subSS subn0 subnn coef_Poly ps0 mulr0 add0r.
+rewrite coef_poly kE (HE _ kE) /espn_closed -mulr_natr -mulrA divfK ?natr_neq0 //.
+rewrite mulr_sumr -big_split /= big1_seq // => j; rewrite mem_index_iota => /andP[_ /andP[j1 jk]].
+rewrite subSS subKn // coef_poly coef_Poly.
+have -> : (k.+1 - j < size E)%N by lia.
+by rewrite sign_cancel.
+Qed.
+
+(* ---- one element ---- *)
+Lemma vietes_size c : size (vietes NR c) = size c.
+Proof. by rewrite /vietes !stdE size_map size_iota. Qed.
+
+Lemma vietes_nth (c : seq R) i : (vietes NR c)`_i = (-1) ^+ i * ((rev c)`_i / (rev c)`_0).
+Proof.
+case: (ltnP i (size c)) => Hi; last first.
+  by rewrite [LHS]nth_default ?vietes_size // [(rev c)`_i]nth_default ?size_rev // mul0r mulr0.
+have c0 : (0 < size c)%N by apply: leq_ltn_trans Hi.
+rewrite /vietes !stdE (nth_map 0%N) ?size_iota // nth_iota // add0n.
+rewrite !numE sgn_even !nthFE !nth_rev // -mulrA; congr (_ * (c`__ / c`__)).
+by rewrite !stdE subn1 subnS.
+Qed.
+
+Lemma npoly_coef e wm c j : coeffs NR e wm = Some c -> (npoly R e wm)`_j = (-1) ^+ j * (vietes NR c)`_j.
+Proof. by move=> H; rewrite /npoly /qpoly H coefZ !coef_Poly vietes_nth signMM mulrC. Qed.
+
+Lemma npoly_coef0 e wm : (qpoly R e wm)`_0 != 0 -> (npoly R e wm)`_0 = 1.
+Proof. by move=> H; rewrite /npoly coefZ mulVf. Qed.
+
+Lemma ps_newton_ok e wm c esp' ps : coeffs NR e wm = Some c -> (forall j, esp'`_j = (vietes NR c)`_j) ->
+  PSinv esp' ps -> (qpoly R e wm)`_0 != 0 -> newton_ok (npoly R e wm) ps.
+Proof.
+move=> Hc He Hps q0; apply: (@PSinv_newton_ok _ esp') => //; first exact: npoly_coef0.
+by move=> j; rewrite He; apply: npoly_coef.
+Qed.
+
+Lemma coeffs_loop_shape e wm wm' l (acc : seq R) (acc' : seq unit) : size acc = size acc' ->
+  match coeffs_loop NR e wm l acc, coeffs_loop NumUnit e wm' l acc' with
+  | Some r, Some r' => size r = size r' | None, None => True | _, _ => False end.
+Proof.
+elim: l acc acc' => [|i l IH] acc acc' Hs //=.
+case: BinInt.Z.ltb => //; case: assoc_get => [iso|]; last exact: IH.
+case: BinInt.Z.ltb => //; rewrite !lengthE -Hs; case: Nat.compare => //; apply: IH.
+  by rewrite !appE !size_cat /= Hs.
+by rewrite !stdE !size_cat !size_nseq /= Hs.
+Qed.
+
+Lemma brain_elem_okP e : brain_elem_ok e = true -> exists ca cb,
+  [/\ coeffs NR e false = Some ca, coeffs NR e true = Some cb,
+      (BinInt.Z.to_nat (max_shift e) < size ca)%N, size cb = size ca & BinInt.Z.le 0 (max_shift e)].
+Proof.
+rewrite /brain_elem_ok.
+have := @coeffs_loop_shape e false false (List.seq 0 (BinInt.Z.to_nat (BinInt.Z.add (BinInt.Z.sub (max_shift e) (min_shift e)) 1))) [::] [::] erefl.
+have := @coeffs_loop_shape e true true (List.seq 0 (BinInt.Z.to_nat (BinInt.Z.add (BinInt.Z.sub (max_shift e) (min_shift e)) 1))) [::] [::] erefl.
+rewrite -!/(coeffs _ _ _).
+case: (coeffs NumUnit e true) => [b|]; case: (coeffs NumUnit e false) => [a|] //;
+  case: (coeffs NR e true) => [cb|] //; case: (coeffs NR e false) => [ca|] // Hb Ha.
+rewrite !stdE nateqbE => /andP[/andP[H1 /eqP H2] H3].
+by exists ca, cb; split=> //; [rewrite Ha | rewrite Ha Hb | lia].
+Qed.
+
+Lemma newton_lt order esp ps : (size ps < size esp)%N ->
+  newton NR order (mkParams esp ps) = mkParams esp (update_ps NR esp ps).
+Proof. by move=> H; rewrite /newton /= !lengthE compare_ltn. Qed.
+
+Lemma params_from_elementE e wm c : coeffs NR e wm = Some c -> (0 < size c)%N ->
+  params_from_element NR e wm = Some (mkParams (vietes NR c) (update_ps NR (vietes NR c) [::])).
+Proof.
+by rewrite /params_from_element => ->; case: c.
+Qed.
+
+Lemma elem_phi e order : brain_elem_ok e = true -> BinInt.Z.le 0 order ->
+  exists p, [/\ phi_from_element NR e = Some p, ph_sym p = sym e &
+    let p' := phi_update NR order p in
+    [/\ ph_sym p' = sym e, (BinInt.Z.to_nat order < size (p_ps (ph_el p')))%N,
+        (BinInt.Z.to_nat order < size (p_ps (ph_mass p')))%N,
+        (qpoly R e false)`_0 != 0 -> newton_ok (npoly R e false) (p_ps (ph_el p')) &
+        (qpoly R e true)`_0 != 0 -> newton_ok (npoly R e true) (p_ps (ph_mass p'))]].
+Proof.
+move=> /brain_elem_okP[ca [cb [Ha Hb Hms Hsz ms0]]] o0.
+have ca0 : (0 < size ca)%N by lia.
+have cb0 : (0 < size cb)%N by lia.
+rewrite /phi_from_element (params_from_elementE Ha) // (params_from_elementE Hb) //.
+eexists; split; [reflexivity | by [] |].
+have [szA psA] := update_psP (@PSinv_nil (vietes NR ca)).
+have [szB psB] := update_psP (@PSinv_nil (vietes NR cb)).
+rewrite /= max0n vietes_size in szA; rewrite /= max0n vietes_size in szB.
+rewrite /phi_update [ph_order _]/=; case: BinInt.Z.ltb_spec => Ho /=.
+  split=> //; try lia.
+  - exact: (@ps_newton_ok _ _ _ (vietes NR ca) _ Ha (fun=> erefl) psA).
+  - exact: (@ps_newton_ok _ _ _ (vietes NR cb) _ Hb (fun=> erefl) psB).
+set n := BinInt.Z.to_nat (BinInt.Z.sub _ _).
+have nE : BinInt.Z.of_nat n = BinInt.Z.sub (BinInt.Z.add order 1) (max_shift e) by rewrite /n; lia.
+have n0 : (0 < n)%N by lia.
+rewrite /push_zeros /= !stdE !newton_lt ?size_cat ?size_nseq ?vietes_size ?szA ?szB /=; try lia.
+have [szA' psA'] := update_psP (PSinv_pad n psA).
+have [szB' psB'] := update_psP (PSinv_pad n psB).
+rewrite size_cat size_nseq vietes_size szA in szA'; rewrite size_cat size_nseq vietes_size szB in szB'.
+split=> //; try (rewrite ?szA' ?szB'; lia).
+- exact: (@ps_newton_ok _ _ _ (vietes NR ca ++ nseq n 0) _ Ha (fun j => nth_pad _ n j) psA').
+- exact: (@ps_newton_ok _ _ _ (vietes NR cb ++ nseq n 0) _ Hb (fun j => nth_pad _ n j) psB').
+Qed.
+
+(* ---- generic list/option helpers ---- *)
+Lemma find_none (T : Type) (key : T -> String.string) (l : seq T) s :
+  s \notin map key l -> List.find (fun y => String.eqb (key y) s) l = None.
+Proof.
+elim: l => //= x l IH; rewrite inE negb_or => /andP[ne /IH->].
+by rewrite eq_sym in ne; rewrite -[String.eqb _ _]/(key x == s) (negbTE ne).
+Qed.
+
+Lemma find_map_uniq (T U : Type) (g : T -> U) (keyT : T -> String.string) (keyU : U -> String.string)
+    (d : T) (l : seq T) i :
+  (forall j, (j < size l)%N -> keyU (g (nth d l j)) = keyT (nth d l j)) ->
+  uniq (map keyT l) -> (i < size l)%N ->
+  List.find (fun y => String.eqb (keyU y) (keyT (nth d l i))) (map g l) = Some (g (nth d l i)).
+Proof.
+elim: l i => //= x l IH i Hk /andP[nin ul].
+have Hx := Hk 0%N isT; rewrite /= in Hx.
+have Hl j : (j < size l)%N -> keyU (g (nth d l j)) = keyT (nth d l j) by move=> jl; apply: (Hk j.+1).
+case: i => [|i]; first by rewrite /= Hx String.eqb_refl.
+rewrite ltnS => il /=; rewrite Hx.
+have -> : String.eqb (keyT x) (keyT (nth d l i)) = false.
+  apply/negbTE/negP => /(@eqP string_eqType) E; move: nin; rewrite E.
+  by rewrite -(nth_map d (keyT d)) // mem_nth // size_map.
+exact: IH.
+Qed.
+
+Lemma all_some_map (T U : Type) (d : T) (f : T -> option U) (g : T -> U) (l : seq T) :
+  (forall i, (i < size l)%N -> f (nth d l i) = Some (g (nth d l i))) ->
+  all_some (map f l) = Some (map g l).
+Proof.
+elim: l => //= x l IH H; rewrite (H 0%N isT) /= IH // => i il; exact: (H i.+1).
+Qed.
+
+Lemma fold_opt (T : Type) (d : T) (l : seq T) (f : T -> option R) (g w : T -> R) z :
+  (forall i, (i < size l)%N -> f (nth d l i) = Some (g (nth d l i))) ->
+  List.fold_left (fun a x => match a, f x with
+                             | Some a', Some p => Some (add NR a' (mul NR p (w x)))
+                             | _, _ => None end) l (Some z)
+  = Some (z + \sum_(x <- l) g x * w x).
+Proof.
+elim: l z => [|x l IH] z H /=; first by rewrite big_nil addr0.
+rewrite (H 0%N isT) /= IH; last by move=> i il; apply: (H i.+1).
+by rewrite big_cons addrA.
+Qed.
+
+Lemma fold_sum (T : Type) (l : seq T) (F : T -> R) z :
+  foldl (fun a x => add NR a (F x)) z l = z + \sum_(x <- l) F x.
+Proof.
+elim: l z => [|x l IH] z /=; first by rewrite big_nil addr0.
+by rewrite IH big_cons addrA.
+Qed.
+
+Lemma big_seq_ord (V : Type) (idx : V) (op : Monoid.law idx) (T : Type) (d : T) (l : seq T) (F : T -> V) :
+  \big[op/idx]_(x <- l) F x = \big[op/idx]_(i < size l) F (nth d l i).
+Proof. by rewrite (big_nth d) big_mkord. Qed.
+
+Lemma coef0_bigprod (I : Type) (r : seq I) (F : I -> {poly R}) :
+  (\prod_(i <- r) F i)`_0 = \prod_(i <- r) (F i)`_0.
+Proof. by rewrite -horner_coef0 horner_prod; apply: eq_bigr => i _; rewrite horner_coef0. Qed.
+
+Lemma coef0_exp (p : {poly R}) n : (p ^+ n)`_0 = p`_0 ^+ n.
+Proof. by rewrite -horner_coef0 horner_exp horner_coef0. Qed.
+
+(* ---- power sums -> the coefficients of the polynomial they belong to ---- *)
+Lemma esp_from_ps (G : {poly R}) (PS : seq R) mv o :
+  PS`_0 = 0 -> size PS = o.+1 -> BinInt.Z.le (BinInt.Z.of_nat o) mv ->
+  G`_0 = 1 -> ld o G (Poly PS) ->
+  size (update_esp NR mv PS [::]) = o.+1 /\
+  forall k, (k <= o)%N -> (-1) ^+ k * (update_esp NR mv PS [::])`_k = G`_k.
+Proof.
+move=> PS0 sz Hmv G0 HG.
+have [szE HE] : size (update_esp NR mv PS [::]) = size PS /\ ESinv PS (update_esp NR mv PS [::]).
+  by apply: update_espP; rewrite sz; lia.
+split; first by rewrite szE.
+move=> k ko.
+have HB : ld o (Bpoly (update_esp NR mv PS [::])) (Poly PS).
+  by apply: ESinv_ld => //; rewrite szE ?sz.
+rewrite (ld_uniq HG HB _ _ ko) ?coef_Poly //.
+  by rewrite coef_poly szE sz ltnS ko.
+by rewrite coef_poly szE sz /= expr0 mul1r HE ?szE ?sz.
+Qed.
+
+(* ---- a composition ---- *)
+Definition dphi : phi (F:=R) :=
+  mkPhi BinNums.Z0 String.EmptyString (mkParams [::] [::]) (mkParams [::] [::]).
+Definition symf (x : elem * BinNums.Z) := sym x.1.
+Definition PH0 (x : elem * BinNums.Z) := odflt dphi (phi_from_element NR x.1).
+
+Lemma constants_fresh_gen l0 (c : bcomp) :
+  (forall i, (i < size c)%N -> phi_from_element NR (nth en0 c i).1 = Some (PH0 (nth en0 c i))
+                               /\ ph_sym (PH0 (nth en0 c i)) = symf (nth en0 c i)) ->
+  uniq (map (@ph_sym R) l0 ++ map symf c) ->
+  List.fold_left (fun a x => add_const NR a x.1) c (Some l0) = Some (l0 ++ map PH0 c).
+Proof.
+elim: c l0 => [|x c IH] l0 H U /=; first by rewrite cats0.
+have [H1 H2] := H 0%N isT; rewrite /= in H1 H2.
+move: U; rewrite /= -cat_rcons => U.
+have nin : symf x \notin map (@ph_sym R) l0.
+  by move: U; rewrite cat_uniq rcons_uniq => /andP[/andP[]].
+rewrite /get_phi find_none // H1 appE cats1 IH ?cat_rcons //.
+  by move=> i il; apply: (H i.+1).
+by rewrite map_rcons H2.
+Qed.
+
+Section Comp.
+Variables (c : bcomp) (order mv : BinNums.Z) (base : R).
+Hypothesis c_ok : bcomp_ok c = true.
+Hypothesis order0 : BinInt.Z.le 0 order.
+Hypothesis order_mv : BinInt.Z.le order mv.
+Let o := BinInt.Z.to_nat order.
+Let en i := nth en0 c i.
+Definition PH x := phi_update NR order (PH0 x).
+Definition pe x := p_ps (ph_el (PH x)).
+Definition pm x := p_ps (ph_mass (PH x)).
+Let cs := map PH c.
+
+Lemma c_elem i : (i < size c)%N -> brain_elem_ok (en i).1 = true /\ BinInt.Z.lt 0 (en i).2.
+Proof.
+move: c_ok; rewrite /bcomp_ok forallbE => /andP[/(all_nthP en0) H _] il.
+by move: (H i il) => /andP[-> H2]; split=> //; rewrite /en; lia.
+Qed.
+
+Lemma c_uniq : uniq (map symf c).
+Proof.
+move: c_ok => /andP[_]; rewrite nateqbE !lengthE mapE => /eqP H.
+by apply: nodup_uniq; rewrite size_map -[RHS]H.
+Qed.
+
+Lemma PH_P i : (i < size c)%N ->
+  [/\ phi_from_element NR (en i).1 = Some (PH0 (en i)), ph_sym (PH0 (en i)) = symf (en i) &
+   [/\ ph_sym (PH (en i)) = symf (en i), (o < size (pe (en i)))%N, (o < size (pm (en i)))%N,
+       (qpoly R (en i).1 false)`_0 != 0 -> newton_ok (npoly R (en i).1 false) (pe (en i)) &
+       (qpoly R (en i).1 true)`_0 != 0 -> newton_ok (npoly R (en i).1 true) (pm (en i))]].
+Proof.
+move=> il; have [p [H1 H2 H3]] := elem_phi (c_elem il).1 order0.
+by rewrite /pe /pm /PH /PH0 H1.
+Qed.
+
+Lemma constants_freshE : constants_fresh NR c = Some (map PH0 c).
+Proof.
+rewrite /constants_fresh (@constants_fresh_gen [::]) //=; last exact: c_uniq.
+by move=> i il; have [] := PH_P il.
+Qed.
+
+Lemma get_phiE i : (i < size c)%N -> get_phi cs (symf (en i)) = Some (PH (en i)).
+Proof.
+move=> il; apply: (@find_map_uniq _ _ PH symf (@ph_sym R)) => //; last exact: c_uniq.
+by move=> j jl; have [_ _ []] := PH_P jl.
+Qed.
+
+Lemma psumE i k : (i < size c)%N -> (k <= o)%N -> psum NR cs (symf (en i)) k = Some (pe (en i))`_k.
+Proof.
+move=> il ko; rewrite /psum get_phiE // !stdE nthFE.
+have [_ _ [_ H _ _ _]] := PH_P il.
+by rewrite -/(pe _) (leq_ltn_trans ko H).
+Qed.
+
+Lemma psum_massE i k : (i < size c)%N -> (k <= o)%N -> psum_mass NR cs (symf (en i)) k = Some (pm (en i))`_k.
+Proof.
+move=> il ko; rewrite /psum_mass get_phiE // !stdE nthFE.
+have [_ _ [_ _ H _ _]] := PH_P il.
+by rewrite -/(pm _) (leq_ltn_trans ko H).
+Qed.
+
+Definition phiF k : R := \sum_(x <- c) (pe x)`_k * zR R x.2.
+
+Lemma phi_forE k : (k <= o)%N -> phi_for NR cs c k = Some (phiF k).
+Proof.
+move=> ko; rewrite /phi_for.
+rewrite (@fold_opt _ en0 c (fun x => psum NR cs (sym x.1) k) (fun x => (pe x)`_k) (fun x => zR R x.2)) ?add0r //.
+by move=> i il; apply: psumE.
+Qed.
+
+Definition coefm (x y : elem * BinNums.Z) : BinNums.Z :=
+  if String.eqb (sym y.1) (sym x.1) && BinNat.N.eqb (mai y.1) (mai x.1) then BinInt.Z.sub y.2 1 else y.2.
+Definition pmF (x : elem * BinNums.Z) k : R := \sum_(y <- c) (pe y)`_k * zR R (coefm x y) + (pm x)`_k.
+
+Lemma phi_mass_forE i k : (i < size c)%N -> (k <= o)%N ->
+  phi_mass_for NR cs c (en i).1 k = Some (pmF (en i) k).
+Proof.
+move=> il ko; rewrite /phi_mass_for.
+rewrite (@fold_opt _ en0 c (fun x => psum NR cs (sym x.1) k) (fun x => (pe x)`_k) (fun y => zR R (coefm (en i) y))) ?add0r.
+  by rewrite (@psum_massE i).
+by move=> j jl; apply: psumE.
+Qed.
+
+Definition PSv := 0 :: [seq phiF k | k <- iota 1 o].
+Definition Ev := update_esp NR mv PSv [::].
+Definition PVv := [seq x.2 * (base * sgn NR (Nat.even x.1)) | x <- zip (iota 0 (size Ev)) Ev].
+
+Lemma prob_vectorE : prob_vector NR cs c o mv base = Some PVv.
+Proof.
+rewrite /prob_vector !stdE (@all_some_map _ _ 0%N _ phiF) //.
+  by rewrite !stdE.
+by move=> i; rewrite size_iota => io; rewrite nth_iota // phi_forE.
+Qed.
+
+Lemma size_Ev : size Ev = o.+1.
+Proof.
+have [] := @update_espP mv PSv; rewrite /= size_map size_iota //.
+by rewrite /o; lia.
+Qed.
+
+Lemma size_PVv : size PVv = o.+1.
+Proof. by rewrite /PVv size_map size_zip size_iota minnn size_Ev. Qed.
+
+Lemma nth_PVv k : (k <= o)%N -> PVv`_k = base * ((-1) ^+ k * Ev`_k).
+Proof.
+move=> ko; have kE : (k < size Ev)%N by rewrite size_Ev.
+rewrite /PVv (nth_map (0%N, 0)) ?size_zip ?size_iota ?minnn // nth_zip ?size_iota //=.
+by rewrite nth_iota // add0n sgn_even mulrCA [Ev`_k * _]mulrC.
+Qed.
+
+(* entry 0 of the probability vector is always base, whatever the polynomials are *)
+Lemma PVv_0 : PVv`_0 = base.
+Proof.
+rewrite nth_PVv // expr0 mul1r.
+have [sz HE] : size Ev = size PSv /\ ESinv PSv Ev.
+  by apply: update_espP; rewrite /= size_map size_iota /o; lia.
+by rewrite (HE 0%N) ?mulr1 // size_Ev.
+Qed.
+
+Definition PSm x := 0 :: [seq pmF x k | k <- iota 1 o].
+Definition Em x := update_esp NR mv (PSm x) [::].
+Definition centerF k : R :=
+  \sum_(x <- c) zR R x.2 * ((-1) ^+ k * (Em x)`_k) * base * micro NR (mam x.1).
+Definition CVv (pv : seq R) := [seq (if pv`_k == 0 then 0 else centerF k / pv`_k) | k <- iota 0 o.+1].
+
+Lemma size_Em x : size (Em x) = o.+1.
+Proof.
+have [] := @update_espP mv (PSm x); rewrite /= size_map size_iota //.
+by rewrite /o; lia.
+Qed.
+
+Lemma center_vectorE pv : size pv = o.+1 -> center_vector NR cs c o mv base pv = Some (CVv pv).
+Proof.
+move=> szpv; rewrite /center_vector.
+rewrite mapE (@all_some_map _ _ en0 _ (fun x => (symf x, Em x))); last first.
+  move=> i il; rewrite !stdE (@all_some_map _ _ 0%N _ (pmF (en i))) //.
+  by move=> k; rewrite size_iota => ko; rewrite nth_iota // phi_mass_forE.
+have getE j : (j < size c)%N ->
+    match List.find (fun sp : String.string * seq R => String.eqb sp.1 (sym (en j).1))
+                    [seq (symf x, Em x) | x <- c] with Some sp => sp.2 | None => [::] end = Em (en j).
+  move=> jl; rewrite (@find_map_uniq _ _ (fun x => (symf x, Em x)) symf fst en0 c j) //.
+  exact: c_uniq.
+rewrite !stdE szpv addn1 ltnn.
+rewrite (@all_some_map _ _ 0%N _ (fun k => if pv`_k == 0 then 0 else centerF k / pv`_k)) //.
+move=> i; rewrite size_iota => io; rewrite nth_iota // add0n !stdE.
+set b := all _ c; have -> : b = true.
+  by apply/(all_nthP en0) => j jl; rewrite getE // !stdE size_Em.
+congr Some; rewrite !numE nthFE -[eqb NR _ _]/(_ == _); case: ifP => // _.
+congr (_ / _); rewrite fold_sum add0r /centerF !(big_seq_ord _ en0).
+by apply: eq_bigr => j _; rewrite getE // !numE sgn_even nthFE.
+Qed.
+
+(* entry 0 of the centre vector is always sum_e n_e * mam_e (for base != 0) *)
+Lemma Em_0 x : (Em x)`_0 = 1.
+Proof.
+have [sz HE] : size (Em x) = size (PSm x) /\ ESinv (PSm x) (Em x).
+  by apply: update_espP; rewrite /= size_map size_iota /o; lia.
+by rewrite (HE 0%N) // size_Em.
+Qed.
+
+Lemma CVv_0 : base != 0 -> (CVv PVv)`_0 = \sum_(x <- c) zR R x.2 * micro NR (mam x.1).
+Proof.
+move=> b0; rewrite /CVv (nth_map 0%N) ?size_iota // nth_iota // add0n PVv_0 (negbTE b0).
+rewrite /centerF; apply: canLR (mulfK b0) _; rewrite mulr_suml.
+by apply: eq_bigr => x _; rewrite Em_0 expr0 !mulr1 mulrAC.
+Qed.
+
+(* ---- the algebra ---- *)
+Lemma newton_ok_ld (A : {poly R}) ps N : (N < size ps)%N -> newton_ok A ps -> ld N A (Poly ps).
+Proof. by move=> H1 H2 k kN; apply: H2; apply: leq_ltn_trans H1. Qed.
+
+Lemma newton_ok_0 (A : {poly R}) ps : A`_0 = 1 -> newton_ok A ps -> ps`_0 = 0.
+Proof.
+move=> A0 H; case: (posnP (size ps)) => [/eqP|/H]; first by rewrite size_eq0 => /eqP->.
+by rewrite ld_coef0 A0 mul1r coef_Poly.
+Qed.
+
+Lemma coef0_mul (p q : {poly R}) : (p * q)`_0 = p`_0 * q`_0.
+Proof. by rewrite coefM big_ord1. Qed.
+
+Lemma zR_cnt i : (i < size c)%N -> zR R (en i).2 = (cnt (en i))%:R.
+Proof. by move=> il; have [_ H] := c_elem il; rewrite zR_to_nat //; lia. Qed.
+
+Lemma zR_cnt1 i : (i < size c)%N -> zR R (BinInt.Z.sub (en i).2 1) = (cnt (en i)).-1%:R.
+Proof.
+move=> il; have [_ H] := c_elem il; rewrite zR_to_nat /cnt; last lia.
+by congr (_%:R); lia.
+Qed.
+
+Lemma nth_PSv k : (0 < k <= o)%N -> PSv`_k = phiF k.
+Proof.
+case: k => // k /andP[_ ko]; rewrite /PSv /= (nth_map 0%N) ?size_iota // nth_iota //.
+Qed.
+
+Lemma nth_PSm x k : (0 < k <= o)%N -> (PSm x)`_k = pmF x k.
+Proof.
+case: k => // k /andP[_ ko]; rewrite /PSm /= (nth_map 0%N) ?size_iota // nth_iota //.
+Qed.
+
+Hypothesis q0f : forall i, (i < size c)%N -> (qpoly R (en i).1 false)`_0 != 0.
+
+Lemma pe_ld i : (i < size c)%N -> ld o (npoly R (en i).1 false) (Poly (pe (en i))).
+Proof. by move=> il; have [_ _ [_ H1 _ H2 _]] := PH_P il; apply: newton_ok_ld (H2 (q0f il)). Qed.
+
+Lemma pe_0 i : (i < size c)%N -> (pe (en i))`_0 = 0.
+Proof.
+move=> il; have [_ _ [_ _ _ H2 _]] := PH_P il.
+by apply: newton_ok_0 (H2 (q0f il)); apply: npoly_coef0; apply: q0f.
+Qed.
+
+Lemma ld_Geff : ld o (Geff R c) (Poly PSv).
+Proof.
+rewrite /Geff (big_seq_ord _ en0).
+have H := @ld_bigprod R o 'I_(size c) (index_enum _)
+  (fun i => npoly R (en i).1 false ^+ cnt (en i)) (fun i => Poly (pe (en i)) *+ cnt (en i)).
+apply: ld_eqr (H _); last by move=> i; apply: ld_exp; apply: pe_ld.
+move=> k ko; rewrite coef_sum coef_Poly.
+case: k ko => [|k] ko.
+  by rewrite big1 // => i _; rewrite coefMn coef_Poly pe_0 ?mul0rn.
+rewrite nth_PSv // /phiF (big_seq_ord _ en0); apply: eq_bigr => i _.
+by rewrite coefMn coef_Poly zR_cnt // mulr_natr.
+Qed.
+
+Lemma Geff_0 : (Geff R c)`_0 = 1.
+Proof.
+rewrite /Geff (big_seq_ord _ en0) coef0_bigprod big1 // => i _.
+by rewrite coef0_exp npoly_coef0 ?expr1n //; apply: q0f.
+Qed.
+
+Lemma prob_alg k : (k <= o)%N -> PVv`_k = base * (Geff R c)`_k.
+Proof.
+move=> ko; rewrite nth_PVv //.
+have [] := @esp_from_ps (Geff R c) PSv mv o _ _ _ Geff_0 ld_Geff => //.
+- by rewrite /PSv /= size_map size_iota.
+- by rewrite /o; lia.
+by move=> _ ->.
+Qed.
+
+(* the mass-weighted factors *)
+Lemma coefm_same i : (i < size c)%N -> coefm (en i) (en i) = BinInt.Z.sub (en i).2 1.
+Proof. by rewrite /coefm String.eqb_refl BinNat.N.eqb_refl. Qed.
+
+Lemma coefm_other i j : (i < size c)%N -> (j < size c)%N -> j != i -> coefm (en i) (en j) = (en j).2.
+Proof.
+move=> il jl ne; rewrite /coefm.
+have -> : String.eqb (sym (en j).1) (sym (en i).1) = false; last by [].
+rewrite -[String.eqb _ _]/(symf (en j) == symf (en i)).
+by rewrite -!(nth_map en0 (symf en0)) // nth_uniq ?size_map ?(negbTE ne) //; apply: c_uniq.
+Qed.
+
+Lemma ld_Geff_mass i : (i < size c)%N -> (qpoly R (en i).1 true)`_0 != 0 ->
+  ld o (Geff_mass R c i) (Poly (PSm (en i))).
+Proof.
+move=> il q0t; rewrite /Geff_mass.
+have [_ _ [_ _ Hsz _ Hm]] := PH_P il.
+have H := @ld_bigprod R o 'I_(size c) (index_enum _)
+  (fun j => if (j : nat) == i then npoly R (en j).1 true * npoly R (en j).1 false ^+ (cnt (en j)).-1
+            else npoly R (en j).1 false ^+ cnt (en j))
+  (fun j => if (j : nat) == i then Poly (pm (en j)) + Poly (pe (en j)) *+ (cnt (en j)).-1
+            else Poly (pe (en j)) *+ cnt (en j)).
+apply: ld_eqr (H _); last first.
+  move=> j; case: eqP => [->|_]; last by apply: ld_exp; apply: pe_ld.
+  apply: ld_mul; first exact: newton_ok_ld (Hm q0t).
+  by apply: ld_exp; apply: pe_ld.
+have pm0 : (pm (en i))`_0 = 0 by apply: newton_ok_0 (Hm q0t); apply: npoly_coef0.
+move=> k ko; rewrite coef_sum coef_Poly.
+case: k ko => [|k] ko.
+  rewrite big1 // => j _; case: eqP => [->|_].
+    by rewrite coefD coefMn !coef_Poly pm0 pe_0 // mul0rn addr0.
+  by rewrite coefMn coef_Poly pe_0 ?mul0rn.
+rewrite nth_PSm // /pmF (big_seq_ord _ en0).
+rewrite (bigD1 (Ordinal il)) //= eqxx [in RHS](bigD1 (Ordinal il)) //=.
+rewrite coefD coefMn !coef_Poly coefm_same // zR_cnt1 // mulr_natr.
+rewrite -/(en i) [RHS]addrC -!addrA; congr (_ + (_ + _)).
+apply: eq_bigr => j ne.
+have ne' : (j : nat) != i by rewrite -[i]/(val (Ordinal il)) val_eqE.
+by rewrite (negbTE ne') coefMn coef_Poly coefm_other // zR_cnt // mulr_natr.
+Qed.
+
+Lemma Geff_mass_0 i : (i < size c)%N -> (qpoly R (en i).1 true)`_0 != 0 -> (Geff_mass R c i)`_0 = 1.
+Proof.
+move=> il q0t; rewrite /Geff_mass coef0_bigprod big1 // => j _.
+case: eqP => [->|_].
+  by rewrite coef0_mul coef0_exp !npoly_coef0 ?expr1n ?mulr1 //; apply: q0f.
+by rewrite coef0_exp npoly_coef0 ?expr1n //; apply: q0f.
+Qed.
+
+Lemma Em_alg i k : (i < size c)%N -> (qpoly R (en i).1 true)`_0 != 0 -> (k <= o)%N ->
+  (-1) ^+ k * (Em (en i))`_k = (Geff_mass R c i)`_k.
+Proof.
+move=> il q0t ko.
+have [] := @esp_from_ps (Geff_mass R c i) (PSm (en i)) mv o _ _ _ (Geff_mass_0 il q0t) (ld_Geff_mass il q0t) => //.
+- by rewrite /PSm /= size_map size_iota.
+- by rewrite /o; lia.
+by move=> _ ->.
+Qed.
+
+Lemma center_alg k : (forall i, (i < size c)%N -> (qpoly R (en i).1 true)`_0 != 0) ->
+  base != 0 -> (k <= o)%N -> (Geff R c)`_k != 0 ->
+  (CVv PVv)`_k = (Heff R c)`_k / (Geff R c)`_k.
+Proof.
+move=> q0t b0 ko G0.
+rewrite /CVv (nth_map 0%N) ?size_iota // nth_iota // add0n prob_alg //.
+rewrite (negbTE (mulf_neq0 b0 G0)).
+have -> : centerF k = base * (Heff R c)`_k.
+  rewrite /centerF /Heff coef_sum (big_seq_ord _ en0) mulr_sumr; apply: eq_bigr => i _.
+  rewrite coefZ Em_alg // ?q0t // zR_cnt //.
+  move: (micro _ _) (_%:R) ((Geff_mass _ _ _)`__) => a n g; ring.
+by rewrite -mulf_div divff // mul1r.
+Qed.
+End Comp.
+
+(* ---- the two vectors ---- *)
+Lemma resolve_order_le req mv : BinInt.Z.le (resolve_order req mv) mv.
+Proof. by rewrite /resolve_order; case: BinInt.Z.eqb; lia. Qed.
+
+Lemma brain_vectorsE c order_req base : bcomp_ok c = true ->
+  let mv := max_variants c in let order := resolve_order order_req mv in
+  BinInt.Z.le 0 order ->
+  brain_vectors NR c order_req base
+  = Some (BinInt.Z.to_nat order, PVv c order mv base, CVv c order mv base (PVv c order mv base)).
+Proof.
+move=> cok mv order o0; have omv : BinInt.Z.le order mv by apply: resolve_order_le.
+rewrite /brain_vectors (@constants_freshE c order cok o0) -/mv -/order.
+have -> : BinInt.Z.ltb order 0 = false by lia.
+have -> : List.map (phi_update NR order) (map PH0 c) = map (PH order) c by rewrite mapE -map_comp.
+by rewrite prob_vectorE // center_vectorE // size_PVv.
+Qed.
+
+Lemma brain_vectors_neg c order_req base : bcomp_ok c = true ->
+  BinInt.Z.lt (resolve_order order_req (max_variants c)) 0 -> brain_vectors NR c order_req base = None.
+Proof.
+move=> cok Hlt; rewrite /brain_vectors (@constants_freshE c BinNums.Z0 cok (BinInt.Z.le_refl _)).
+by have -> : BinInt.Z.ltb (resolve_order order_req (max_variants c)) 0 = true by lia.
+Qed.
+
+Lemma brain_defined : forall (c : bcomp) (order_req : BinNums.Z) (base : R),
+  bcomp_ok c = true -> (BinInt.Z.leb 0 (resolve_order order_req (max_variants c))) = true ->
+  exists o pv cv, brain_vectors NR c order_req base = Some (o, pv, cv)
+                  /\ o = BinInt.Z.to_nat (resolve_order order_req (max_variants c))
+                  /\ (o < size pv)%N /\ size cv = o.+1.
+Proof.
+move=> c order_req base cok /BinInt.Z.leb_le o0.
+have omv := @resolve_order_le order_req (max_variants c).
+do 3![eexists]; split; first exact: brain_vectorsE.
+by rewrite size_PVv // /CVv size_map size_iota.
+Qed.
+
+Lemma In_nth_hyp (c : bcomp) (P : elem * BinNums.Z -> Prop) :
+  (forall x, List.In x c -> P x) -> forall i, (i < size c)%N -> P (nth en0 c i).
+Proof. by move=> H i il; apply: H; rewrite -nthE; apply: List.nth_In; rewrite lengthE; apply/ltP. Qed.
+
+(* brain_prob under the extra hypothesis that no element's extracted polynomial has constant term 0 *)
+Lemma brain_prob_nz : forall (c : bcomp) (order_req : BinNums.Z) (base : R) o pv cv,
+  bcomp_ok c = true ->
+  (forall x, List.In x c -> (qpoly R x.1 false)`_0 != 0) ->
+  brain_vectors NR c order_req base = Some (o, pv, cv) ->
+  forall k, (k <= o)%N -> nth 0 pv k = base * (Geff R c)`_k.
+Proof.
+move=> c order_req base o pv cv cok /In_nth_hyp q0.
+case: (BinInt.Z.ltb_spec (resolve_order order_req (max_variants c)) 0) => [Hlt|o0].
+  by rewrite brain_vectors_neg.
+rewrite brain_vectorsE // => -[<- <- _] k ko.
+by apply: prob_alg => //; apply: resolve_order_le.
+Qed.
+
+Lemma brain_center_nz : forall (c : bcomp) (order_req : BinNums.Z) (base : R) o pv cv,
+  bcomp_ok c = true -> base != 0 ->
+  (forall x, List.In x c -> (qpoly R x.1 false)`_0 != 0) ->
+  (forall x, List.In x c -> (qpoly R x.1 true)`_0 != 0) ->
+  brain_vectors NR c order_req base = Some (o, pv, cv) ->
+  forall k, (k <= o)%N -> (Geff R c)`_k != 0 -> nth 0 cv k = (Heff R c)`_k / (Geff R c)`_k.
+Proof.
+move=> c order_req base o pv cv cok b0 /In_nth_hyp q0f /In_nth_hyp q0t.
+case: (BinInt.Z.ltb_spec (resolve_order order_req (max_variants c)) 0) => [Hlt|o0].
+  by rewrite brain_vectors_neg.
+rewrite brain_vectorsE // => -[<- _ <-] k ko G0.
+by apply: center_alg => //; apply: resolve_order_le.
+Qed.
+
+(* ---- brain_prob as stated in Properties/C03.v is FALSE: an element whose lightest listed isotope has abundance 0
+        has qpoly`_0 = 0, hence npoly = 0 and Geff = 0, while entry 0 of the vector is base ---- *)
+Lemma brain_pv0 c order_req base o pv cv : bcomp_ok c = true ->
+  brain_vectors NR c order_req base = Some (o, pv, cv) -> nth 0 pv 0 = base.
+Proof.
+move=> cok.
+case: (BinInt.Z.ltb_spec (resolve_order order_req (max_variants c)) 0) => [Hlt|o0].
+  by rewrite brain_vectors_neg.
+rewrite brain_vectorsE // => -[_ <- _].
+by apply: PVv_0 => //; apply: resolve_order_le.
+Qed.
+
+Definition cex_elem : elem :=
+  mkE String.EmptyString
+      [:: (BinNums.Npos BinNums.xH, mkI (BinNums.Zpos (BinNums.xI (BinNums.xO BinNums.xH))) BinNums.Z0 (BinNums.Npos BinNums.xH) BinNums.Z0)]
+      (BinNums.Npos BinNums.xH) (BinNums.Zpos (BinNums.xI (BinNums.xO BinNums.xH))) (BinNums.Npos BinNums.xH) BinNums.Z0 BinNums.Z0.
+Definition cex : bcomp := [:: (cex_elem, BinNums.Zpos BinNums.xH)].
+
+Lemma cex_ok : bcomp_ok cex = true. Proof. by vm_compute. Qed.
+
+Lemma cex_Geff0 : (Geff R cex)`_0 = 0.
+Proof.
+rewrite /Geff big_seq1 /cnt /= expr1 /npoly coefZ.
+have -> : (qpoly R cex_elem false)`_0 = 0; last by rewrite mulr0.
+rewrite /qpoly.
+have -> : coeffs NR cex_elem false = Some [:: 1 * (zR R BinNums.Z0 / zR R (BinInt.Z.pow 10 (BinInt.Z.of_nat 6)))] by [].
+by rewrite coef_Poly /= /zR /= mul0r mulr0.
+Qed.
+
+Lemma brain_prob_false :
+  ~ (forall (c : bcomp) (order_req : BinNums.Z) (base : R) o pv cv,
+       bcomp_ok c = true ->
+       brain_vectors NR c order_req base = Some (o, pv, cv) ->
+       forall k, (k <= o)%N -> nth 0 pv k = base * (Geff R c)`_k).
+Proof.
+move=> H.
+have [|o [pv [cv [Hbv _]]]] := @brain_defined cex (BinNums.Zneg BinNums.xH) 1 cex_ok; first by [].
+have := H _ _ _ _ _ _ cex_ok Hbv 0%N (leq0n _).
+rewrite (brain_pv0 cex_ok Hbv) cex_Geff0 mulr0 => /eqP.
+by rewrite oner_eq0.
+Qed.
+
+(* ---- brain_center as stated is FALSE as well: a lightest isotope of mass 0 makes the mass-weighted polynomial's
+        constant term 0, so npoly _ true = 0 and Heff loses that element's term ---- *)
+Lemma brain_cv0 c order_req base o pv cv : bcomp_ok c = true -> base != 0 ->
+  brain_vectors NR c order_req base = Some (o, pv, cv) ->
+  nth 0 cv 0 = \sum_(x <- c) zR R x.2 * micro NR (mam x.1).
+Proof.
+move=> cok b0.
+case: (BinInt.Z.ltb_spec (resolve_order order_req (max_variants c)) 0) => [Hlt|o0].
+  by rewrite brain_vectors_neg.
+rewrite brain_vectorsE // => -[_ _ <-].
+by apply: CVv_0 => //; apply: resolve_order_le.
+Qed.
+
+Definition Z1e6 : BinNums.Z := BinInt.Z.pow 10 (BinInt.Z.of_nat 6).
+Definition cex2_elem : elem :=
+  mkE String.EmptyString
+      [:: (BinNums.Npos BinNums.xH, mkI BinNums.Z0 Z1e6 (BinNums.Npos BinNums.xH) BinNums.Z0)]
+      (BinNums.Npos BinNums.xH) (BinNums.Zpos (BinNums.xI (BinNums.xO BinNums.xH))) (BinNums.Npos BinNums.xH) BinNums.Z0 BinNums.Z0.
+Definition cex2 : bcomp := [:: (cex2_elem, BinNums.Zpos BinNums.xH)].
+
+Lemma cex2_ok : bcomp_ok cex2 = true. Proof. by vm_compute. Qed.
+
+Lemma zR1e6_neq0 : zR R Z1e6 != 0.
+Proof. by rewrite /zR intr_eq0 /Z1e6; lia. Qed.
+
+Lemma cex2_Geff0 : (Geff R cex2)`_0 = 1.
+Proof.
+rewrite /Geff big_seq1 /cnt /= expr1; apply: npoly_coef0.
+rewrite /qpoly.
+have -> : coeffs NR cex2_elem false = Some [:: 1 * (zR R Z1e6 / zR R Z1e6)] by [].
+by rewrite coef_Poly /= mul1r divff ?oner_eq0 // zR1e6_neq0.
+Qed.
+
+Lemma cex2_Heff0 : (Heff R cex2)`_0 = 0.
+Proof.
+rewrite /Heff coef_sum [size cex2]/= big_ord1 coefZ /Geff_mass [size cex2]/= big_ord1 /= coef0_mul.
+have -> : (npoly R cex2_elem true)`_0 = 0; last by rewrite mul0r mulr0.
+rewrite /npoly coefZ.
+have -> : (qpoly R cex2_elem true)`_0 = 0; last by rewrite mulr0.
+rewrite /qpoly.
+have -> : coeffs NR cex2_elem true
+          = Some [:: (zR R BinNums.Z0 / zR R Z1e6) * (zR R Z1e6 / zR R Z1e6)] by [].
+by rewrite coef_Poly /= /zR /= !mul0r.
+Qed.
+
+Lemma brain_center_false :
+  ~ (forall (c : bcomp) (order_req : BinNums.Z) (base : R) o pv cv,
+       bcomp_ok c = true -> base != 0 ->
+       brain_vectors NR c order_req base = Some (o, pv, cv) ->
+       forall k, (k <= o)%N -> (Geff R c)`_k != 0 -> nth 0 cv k = (Heff R c)`_k / (Geff R c)`_k).
+Proof.
+move=> H.
+have [|o [pv [cv [Hbv _]]]] := @brain_defined cex2 (BinNums.Zneg BinNums.xH) 1 cex2_ok; first by [].
+have := H _ _ _ _ _ _ cex2_ok (oner_neq0 _) Hbv 0%N (leq0n _).
+rewrite cex2_Geff0 cex2_Heff0 (brain_cv0 cex2_ok (oner_neq0 _) Hbv) mul0r big_seq1 /= => /(_ (oner_neq0 _)) /eqP.
+rewrite !mulf_eq0 invr_eq0 /zR !intr_eq0 -/(BinInt.Z.pow 10 6) /=.
+by lia.
+Qed.
+End Alg.
